@@ -118,6 +118,8 @@ class CellParser(MCNP_Parser):
             left = p.geometry_term
         else:
             left = next(node_iter)
+        # the shortcut is always separated from what is in front of it
+        separated = True
         for node in node_iter:
             if node.never_pad:
                 # a value that the shortcut generated: it is written as a number of its own
@@ -127,9 +129,12 @@ class CellParser(MCNP_Parser):
                 node = syntax_node.ValueNode(
                     str(value), float, syntax_node.PaddingNode(" ")
                 )
+            # the copies that a repeat makes of a number inside a tree have no padding of their own
+            operator = syntax_node.PaddingNode() if separated else syntax_node.PaddingNode(" ")
+            separated = node.padding is not None
             new_tree = syntax_node.GeometryTree(
                 "intersection",
-                {"left": left, "operator": syntax_node.PaddingNode(), "right": node},
+                {"left": left, "operator": operator, "right": node},
                 "*",
                 left,
                 node,
